@@ -187,21 +187,36 @@ fn ledger_open(fd: i32, how: &'static str) {
         h.set(false);
     });
 }
-fn ledger_close(fd: i32, r: i32) {
+/// The ledger entry is removed BEFORE the real close: once the kernel has released the number another thread may get it
+/// from socket()/accept() and register it, and a removal that came afterwards would delete that new entry (seen as a
+/// spurious "close of a descriptor the library does not own" under load).
+fn ledger_pre_close(fd: i32) -> Option<bool> {
     if !LEDGER_ON.load(Ordering::SeqCst) {
-        return;
+        return None;
     }
+    IN_HOOK.with(|h| {
+        if h.get() {
+            return None;
+        }
+        h.set(true);
+        let known = LEDGER.lock().unwrap().open.remove(&fd).is_some();
+        h.set(false);
+        Some(known)
+    })
+}
+fn ledger_post_close(fd: i32, r: i32, known: Option<bool>) {
+    let known = match known {
+        Some(k) => k,
+        None => return,
+    };
     IN_HOOK.with(|h| {
         if h.get() {
             return;
         }
         h.set(true);
-        let mut l = LEDGER.lock().unwrap();
-        let known = l.open.remove(&fd).is_some();
         if r != 0 || (!known && LIB_SCOPE.with(|s| s.get())) {
-            l.bad_closes.push((fd, r));
+            LEDGER.lock().unwrap().bad_closes.push((fd, r));
         }
-        drop(l);
         h.set(false);
     });
 }
@@ -501,9 +516,10 @@ pub unsafe extern "C" fn recv(fd: i32, b: *mut libc::c_void, n: usize, fl: i32) 
 #[no_mangle]
 pub unsafe extern "C" fn close(fd: i32) -> i32 {
     counted_call();
+    let known = ledger_pre_close(fd);
     let r = real!("close", unsafe extern "C" fn(i32) -> i32)(fd);
     let e = errno();
-    ledger_close(fd, r);
+    ledger_post_close(fd, r, known);
     rec(|| Ev::Close { fd, r });
     set_errno(e);
     r
